@@ -334,6 +334,7 @@ func specC09() *propertySpec {
 			{"C09-R4", "failnow: tb.FailNow() under tb.Failed() post-dominates every tb.Errorf of checkTB; Check/MakeCheck do nothing after checkTB", ruleC09R4},
 			{"C09-R5", "no-extra-invocations: after findBug returned nil nothing invokes the property; earlyExit is true only on the deadline return", ruleC09R5},
 			{"C09-R6", "deadline-source: checkDeadline returns the test's own deadline only where Deadline() reported one (ok == true), otherwise now + maxTestTimeout: a zero deadline would end the random phase after the first test case", ruleC09R6},
+			{"C09-R7", "skips-invalidate-the-case: a skip raised by the invariant (not by an action) is not absorbed as a rejected step, it ends the test case as invalid; only executeAction's actions run under the invalidData filter (shared with C08-R1)", ruleC08R1},
 		},
 	}
 }
